@@ -17,7 +17,8 @@ from formak.ast_tools import (
     SourceFile,
 )
 from formak.exceptions import ModelConstructionError
-from sympy import Derivative, Dummy, Matrix, Symbol, ccode, cse, simplify, zoo
+from sympy import Derivative, Dummy, Matrix, Symbol, cse, simplify, zoo
+from sympy.printing.c import C99CodePrinter
 
 from formak import ast_fragments as fragments
 from formak import common
@@ -94,6 +95,20 @@ class CppCompileResult:
     success: bool
     header_path: Optional[str] = None
     source_path: Optional[str] = None
+
+
+class _CppCodePrinter(C99CodePrinter):
+    """sympy's C printer, with sympy's own meaning of Mod."""
+
+    def _print_Mod(self, expr):
+        # Mod (like Python's %) takes the sign of the divisor, C's fmod the sign
+        # of the dividend
+        num, den = (self._print(arg) for arg in expr.args)
+        return f"fmod(fmod({num}, {den}) + {den}, {den})"
+
+
+def _ccode(expr):
+    return _CppCodePrinter().doprint(expr)
 
 
 def _simplify(expr):
@@ -184,13 +199,13 @@ class BasicBlock:
             assert isinstance(target, Symbol)
             if self._config.common_subexpression_elimination:
                 expr = _simplify(expr)
-            cc_expr = ccode(expr)
+            cc_expr = _ccode(expr)
             yield MemberDeclaration("double", target, cc_expr)
 
         for target, expr in zip(self._targets, body):
             if self._config.common_subexpression_elimination:
                 expr = _simplify(expr)
-            cc_expr = ccode(expr)
+            cc_expr = _ccode(expr)
             yield MemberDeclaration("", target, cc_expr)
 
 
